@@ -77,6 +77,8 @@ SEEDS = [
     # its name
     '2"a"', '2/x,"zz"', '2{"a":"§B0§"}', '2/c,"ab"', '2[]', '2/x,5{"zz":1}',
     '2"b§B0§"', '2null', '2/c,true', '51-"a"', '51-/x,"zz"',
+    '31"abc"', '3/x,1{"a":1,"b":2}', '31', '3/c,1', '3/x,1"r"',
+    '61-1{"_placeholder":true,"num":0}', '31[1]',
     '52-"ab"', '51-{"_placeholder":true,"num":0}',
 ]
 
@@ -211,10 +213,13 @@ def _run(case, w):
 
     t_off = w.open()
     off_sids = set()
+    off_cb_log = []     # the offender's own outstanding callbacks (id 1)
     for i in case['off_ns']:
         ci, _ = w.connect(t_off, NSS[i])
         if ci is not None:
             off_sids.add(w.clients[ci]['sid'])
+            w.do(sio.emit('q', 1, to=w.clients[ci]['sid'], namespace=NSS[i],
+                          callback=lambda *a: off_cb_log.append(a)))
     by = []
     for i, nss in enumerate([['/'], ['/x'], ['/x', '/c']]):
         t = w.open()
@@ -325,6 +330,8 @@ def _run(case, w):
         if not mid_binary:
             pending_bad[0] = False
         decodable = None
+        bad_ack = False
+        n_off_cb = len(off_cb_log)
         if body is not None and not mid_binary:
             try:
                 p = sio.packet_class(encoded_packet=body)
@@ -336,6 +343,12 @@ def _run(case, w):
                     labels['payload_of_wrong_type'] = True
                     if p.packet_type == 5 and p.attachment_count > 0:
                         # ... and not after its attachments have come either
+                        pending_bad[0] = True
+                if p.packet_type in (3, 6) and not isinstance(p.data, list):
+                    # not an acknowledgement: nothing to hand to a callback
+                    bad_ack = True
+                    labels['ack_payload_of_wrong_type'] = True
+                    if p.packet_type == 6 and p.attachment_count > 0:
                         pending_bad[0] = True
                 if p.packet_type in (2, 3, 5, 6) and \
                         (p.namespace or '/') in shared:
@@ -388,6 +401,12 @@ def _run(case, w):
         if decodable is False and log:
             raise Violation('undecodable-frame-reached-handler',
                             'step %d frame %r: %r' % (step, fr, log[:2]))
+        if (bad_ack or decodable is False or (
+                mid_binary and pending_bad[0])) and \
+                len(off_cb_log) != n_off_cb:
+            raise Violation('undecodable-frame-reached-callback',
+                            'step %d frame %r: callback invoked with %r'
+                            % (step, fr, off_cb_log[n_off_cb:]))
         if mid_binary and pending_bad[0] and log:
             raise Violation('undecodable-frame-reached-handler',
                             'step %d: the attachments of a binary event '
